@@ -231,14 +231,56 @@ def update_linear(check, proj):
                     else:
                         okc, why = False, "equation %d receives the foreign term %s" % (e, b)
                 forms.append(rest)
-                if "min" in f.data[e].kinds or "max" in f.data[e].kinds:
-                    okc, why = False, "update uses a reduced time step"
+                # (which reduction of a local-time-step array multiplies the residual is C18's
+                # clause: the statement here is about one global step)
             if any(r != forms[0] for r in forms):
                 okc, why = False, "equations are updated with different coefficients: %s" % forms
         if okc:
             check.ok("UPDATE-LINEAR", q, "net update is Q + (same linear combination of residuals / solved increments for every equation)", stepf.loc())
         else:
             check.violation("UPDATE-LINEAR", q, why, stepf.loc(), key="update")
+
+
+def implicit_conservative(check, proj, c):
+    """with volume-weighted column sums of J equal to zero (FD-COLUMN), the increment x of
+    (a/dt*I + b*J) x = r is conservative for ANY a != 0 and b as soon as r is a combination of
+    residuals (and of earlier conservative increments) and the state receives a multiple of x:
+    sum(vol*x) = dt/a * sum(vol*r) = boundary fluxes.  Which theta / xi the scheme uses is C06."""
+    q = c.qualname
+    stepf = proj.resolve(c, "step")
+    loc = stepf.loc()
+    ai, outs = run_step(proj, c, 2)
+    for o in outs:
+        where = "%s [%s]" % (q, o["typestate"])
+        sv = o["solves"]
+        if len(sv) != 1:
+            check.violation("IMPLICIT-FORM", where, "%d linear solves in one step (expected 1)" % len(sv), loc, key="nsolve")
+            continue
+        mat, rhs = sv[0]
+        bad = None
+        if set(mat.ident) != {-1} or mat.ident[-1] == 0:
+            bad = "the identity part of the matrix is %r, not a non-zero multiple of I/dt" % (mat.ident,)
+        for e in range(NEQ):
+            other = [b for b in rhs[e].form if b[0] not in ("K", "L") or b[-1] != e]
+            if other:
+                bad = "the right-hand side of equation %d contains %s, not only residuals / earlier increments of that equation" % (e, other)
+        n = o["s0"]
+        f = o["field"]
+        coefs = set()
+        for e in range(NEQ):
+            form = dict(f.data[e].form)
+            if form.pop(("Q0", e), None) != {0: Fraction(1)}:
+                bad = "the state after the step does not carry the initial state with weight 1 (%s)" % f.data[e]
+            x = form.pop(("X", n, e), None)
+            coefs.add(repr(x))
+            if form:
+                bad = "the state after the step contains %s besides Q and the solved increment" % sorted(form)
+        if len(coefs) != 1:
+            bad = "equations receive different multiples of the solved increment"
+        if bad:
+            check.violation("IMPLICIT-FORM", where, bad, loc, key="implicit-form")
+        else:
+            check.ok("IMPLICIT-FORM", where, "one solve of (a/dt*I + b*J) x = combination of residuals; state := Q + c*x for every equation: conservative for any theta, xi", loc)
 
 
 def body(check):
@@ -256,10 +298,10 @@ def body(check):
     check.guarded("FLUX-SINGLE", "modeldisc", lambda: flux_single(check, proj))
     check.guarded("WALL-ZERO", "bc_sym", lambda: wall_zero(check, proj))
     check.guarded("UPDATE-LINEAR", "integration", lambda: update_linear(check, proj))
-    # implicit family: system form, Jacobian columns = residual differences, one layout
+    # implicit family: what conservation needs of the linear system (any theta, any xi)
     for c in c06.implicit_classes(proj):
-        check.guarded("IMPLICIT-FORM", c.qualname, lambda: c06.th_scheme(check, proj, c), c.loc())
-    check.guarded("IMPLICIT-FORM", "calc_jacobian", lambda: c06.fd_column(check, proj))
+        check.guarded("IMPLICIT-FORM", c.qualname, lambda: implicit_conservative(check, proj, c), c.loc())
+    check.guarded("IMPLICIT-FORM", "calc_jacobian", lambda: c06.fd_column(check, proj, conservation_only=True))
     from . import c15
     if check.guarded("LAYOUT-AGREE", "modeldisc.fvm2dcart", lambda: c15.layout_agree(check)):
         check.guarded("TELESCOPE-2D", "modeldisc.fvm2dcart.calc_res", lambda: c15.telescope_2d(check))
